@@ -9,12 +9,18 @@ from ..terms import F, C, V, A
 NSHARDS = 64
 
 
-def tree_case(tree, continuation=False, extra_script=False, prefix=False, suffix=0):
+def tree_case(tree, continuation=False, extra_script=False, prefix=False, suffix=0, one_unit=False):
+    """one_unit: the leaf predicates are defined in the SAME compilation unit as the clause under test
+    (whatever a compiler concludes from seeing all of their clauses), and each of them has one more
+    answer at run time that the unit does not show: a dynamic fact"""
     body, k = bodies.instantiate(tree)
     prog, nargs = bodies.context_program(body, k, continuation=continuation, prefix=prefix, suffix=suffix)
     if _has_leaf(tree, 'j'):
         prog = prog + bodies.KK_CLAUSES
-    scripts = [(LEAF_PROGRAM, True, True), (prog, True, False)]
+    if one_unit:
+        scripts = [(prog + LEAF_PROGRAM, True, False)]
+    else:
+        scripts = [(LEAF_PROGRAM, True, True), (prog, True, False)]
     if extra_script:
         # a second script adding clauses of p without overwrite: its clauses come after the
         # first definition and are not affected by a cut in it (shared with C08)
@@ -22,6 +28,8 @@ def tree_case(tree, continuation=False, extra_script=False, prefix=False, suffix
         scripts.append(([(F('p', *six) if six else A('p'), ('true',))], False, False))
     seven = [C(7)] * nargs
     facts = [((F('p', *seven) if seven else A('p')), True)]
+    if one_unit:
+        facts += [(F('o', C(3)), True), (F('m', C(3)), True), (F('t2', C(3)), True)]
     qv = [V('A%d' % i) for i in range(1, nargs + 1)] + [V('Z')]
     goal = F('c', *qv)
     return Case(scripts, facts, [goal])
